@@ -537,3 +537,76 @@ pub proof fn lemma_eop_inv(w: World, op: EOp)
         lemma_part_none(w, w1);
     }
 }
+
+// ---- C11 carries over to the enumerable entry points ----
+/// the list maintenance leaves the base view (owners, balances, approvals, auths, events) untouched
+pub proof fn lemma_enum_part_base_same(w1: World, op: NOp, id: u32)
+    requires enum_part_guard(w1, op, id),
+    ensures base_same(w1, enum_part(w1, op, id)),
+{
+    if is_mint(op) {
+        let o = op_to(op).unwrap();
+        let wa = add_owner_post(w1, o, id);
+        lemma_add_owner_pointwise(w1, o, id);
+        lemma_supply_pointwise(wa);
+        lemma_add_global_pointwise(inc_supply_post(wa), id, tsupply(wa));
+    } else if is_move(op) && op_to(op).is_none() {
+        let o = op_from(op).unwrap();
+        let wa = remove_owner_post(w1, o, id);
+        lemma_remove_owner_pointwise(w1, o, id);
+        lemma_supply_pointwise(wa);
+        lemma_remove_global_pointwise(dec_supply_post(wa), id, (tsupply(wa) - 1) as u32);
+    } else if is_move(op) && op_from(op) != op_to(op) {
+        let wa = remove_owner_post(w1, op_from(op).unwrap(), id);
+        lemma_remove_owner_pointwise(w1, op_from(op).unwrap(), id);
+        lemma_add_owner_pointwise(wa, op_to(op).unwrap(), id);
+    } else {}
+}
+
+/// C11 for one enumerable entry point (same statements as `lemma_op_c11`, on the wrapped state)
+pub proof fn lemma_eop_c11(w: World, op: EOp)
+    requires eop_guard(w, op), op_assume(w, base_op(op)),
+    ensures ({
+        let nop = base_op(op); let w2 = eop_post(w, op);
+        //@@ C11:lemma.enum_op_actor_authorized
+        &&& op_actor(nop).is_some() ==> w2.auths.contains(op_actor(nop).unwrap())
+        //@@ C11:lemma.enum_move_only_by_owner_approved_or_live_operator
+        &&& forall|id: u32| cur_owner(w, id).is_some() && #[trigger] cur_owner(w2, id) != cur_owner(w, id) ==>
+                is_move(nop) && op_token(w, nop) == Some(id) && op_from(nop) == cur_owner(w, id)
+                && spender_ok(w, op_actor(nop).unwrap(), cur_owner(w, id).unwrap(), id)
+        //@@ C11:lemma.enum_move_clears_approval
+        &&& is_move(nop) ==> appr_raw(w2, op_token(w, nop).unwrap()).is_none() && cur_approved(w2, op_token(w, nop).unwrap()).is_none()
+        //@@ C11:lemma.enum_approval_set_only_by_owner_or_live_operator
+        &&& forall|id: u32| (#[trigger] appr_raw(w2, id)) != appr_raw(w, id) ==>
+                op_token(w, nop) == Some(id) && (is_move(nop) || (nop is Approve && cur_owner(w, id).is_some()
+                    && (op_actor(nop) == cur_owner(w, id) || is_operator(w, cur_owner(w, id).unwrap(), op_actor(nop).unwrap()))))
+        //@@ C11:lemma.enum_operator_set_only_by_owner
+        &&& forall|o: Address, s: Address| (#[trigger] oper_raw(w2, o, s)) != oper_raw(w, o, s) ==>
+                nop is ApproveForAll && op_actor(nop) == Some(o) && nop->ApproveForAll_operator == s
+    }),
+{
+    let nop = base_op(op);
+    let w1 = op_post(w, nop);
+    let w2 = eop_post(w, op);
+    lemma_op_c11(w, nop);
+    lemma_enum_part_base_same(w1, nop, eop_id(w, op));
+    assert forall|id: u32| cur_owner(w, id).is_some() && #[trigger] cur_owner(w2, id) != cur_owner(w, id) implies
+            is_move(nop) && op_token(w, nop) == Some(id) && op_from(nop) == cur_owner(w, id)
+            && spender_ok(w, op_actor(nop).unwrap(), cur_owner(w, id).unwrap(), id) by {
+        assert(cur_owner(w2, id) == cur_owner(w1, id));
+    }
+    assert forall|id: u32| (#[trigger] appr_raw(w2, id)) != appr_raw(w, id) implies
+            op_token(w, nop) == Some(id) && (is_move(nop) || (nop is Approve && cur_owner(w, id).is_some()
+                && (op_actor(nop) == cur_owner(w, id) || is_operator(w, cur_owner(w, id).unwrap(), op_actor(nop).unwrap())))) by {
+        assert(appr_raw(w2, id) == appr_raw(w1, id));
+    }
+    assert forall|o: Address, s: Address| (#[trigger] oper_raw(w2, o, s)) != oper_raw(w, o, s) implies
+            nop is ApproveForAll && op_actor(nop) == Some(o) && nop->ApproveForAll_operator == s by {
+        assert(oper_raw(w2, o, s) == oper_raw(w1, o, s));
+    }
+    if is_move(nop) {
+        let id = op_token(w, nop).unwrap();
+        assert(appr_raw(w2, id) == appr_raw(w1, id));
+        assert(w2.ledger_seq == w1.ledger_seq);
+    }
+}
